@@ -43,7 +43,7 @@ ASSUMPTIONS = [
 
 def script_s(maxadds=3):
     return st.fixed_dictionaries({
-        "front": st.sampled_from(["seg", "seg", "with", "async", "buffered"]),
+        "front": st.sampled_from(["seg", "seg", "with", "async", "buffered", "mp"]),
         "timeout": st.sampled_from([0, 0, 0.03]),
         "nadds": st.integers(1, maxadds),
         "dels": st.lists(st.integers(0, 5), max_size=2),
@@ -93,6 +93,18 @@ class Monitor(object):
 
 
 def run(case, out):
+    try:
+        _run(case, out)
+    finally:
+        # no sub-process of a multi-process writer outlives the case (a writer that failed half-way leaves them
+        # waiting for jobs, and the interpreter would join them at exit)
+        import multiprocessing
+        for p in multiprocessing.active_children():
+            p.terminate()
+            p.join(5)
+
+
+def _run(case, out):
     with tempdir() as d:
         path = os.path.join(d, "ix")
         os.makedirs(path)
@@ -162,7 +174,12 @@ def run(case, out):
                 front = script["front"]
                 if front == "async" and depth == 0:
                     front = "seg"   # the main writer itself is never asynchronous (it owns the schedule)
-                if front in ("seg", "with"):
+                if front == "mp" and (depth > 0 or ram):
+                    front = "seg"   # the multi-process writer only as the main writer of a directory index
+                if front == "mp":
+                    from whoosh.multiproc import MpWriter
+                    w = MpWriter(ix, procs=2, batchsize=1, timeout=script["timeout"], delay=0.01)
+                elif front in ("seg", "with"):
                     w = ix.writer(timeout=script["timeout"], delay=0.01)
                 elif front == "buffered":
                     w = writing.BufferedWriter(ix, period=None, limit=100, writerargs={"timeout": script["timeout"], "delay": 0.01},
@@ -288,7 +305,11 @@ def run(case, out):
                 os.waitpid(bystander["pid"], 0)
                 bystander.clear()
 
+        main_pid = os.getpid()
+
         def a_tick(idx, kind, name):
+            if os.getpid() != main_pid:
+                return   # a sub-process of the multi-process writer: only the parent's operations are boundaries
             counter["n"] += 1
             j = idx
             if (not ram) and case.get("bystander_at") == j and mon.holder == "A":
